@@ -179,9 +179,9 @@ def rand_tree_lines(rng, delims):
         r = rng.random()
         if r < 0.1:
             lines.append(cdel + rng.choice(["", " a"]))
-        elif r < 0.18:
+        elif r < 0.25:
             lines += T.rand_banner_block(rng, delims)
-        elif r < 0.22:
+        elif r < 0.29:
             lines.append("")
         emit(1, 0)
     return lines
@@ -307,7 +307,10 @@ def rand_query(rng, cfg, kept, ch, api=None):
     pats = []
     for j in range(n):
         anchor = kept[chain[j]] if j < len(chain) and rng.random() < 0.75 else None
-        pats.append(rand_pattern(rng, kept, anchor, literal))
+        if api == "hc" and rng.random() < 0.3:
+            pats.append(rng.choice(EMPTY_MATCH))
+        else:
+            pats.append(rand_pattern(rng, kept, anchor, literal))
     return {"api": api, "pats": pats, "flags": flags}
 
 
@@ -556,7 +559,15 @@ def oracle(case, ans):
             alts.append(("wo-child-list-uses-p1", fl, [p, p[1]]))
             if res == "err:error" and "x" not in fl and not compiles(p[1]):
                 diag = "wo-child-list-uses-p1"
-    if "x" in fl and "w" in fl and any(has_ws(p) for p in case["pats"]):
+    for tag, afl, apats in alts:
+        if diag != "unexplained":
+            break
+        try:
+            if expected(case, parents, children, texts, flags=afl, pats=apats) == res:
+                diag = tag
+        except re.error:
+            pass
+    if diag == "unexplained" and "x" in fl and "w" in fl and any(has_ws(p) for p in case["pats"]):
         # what the composed expression (escape, then whitespace runs -> \s+) really is
         def broken(p):
             return re.sub(r"\s+", lambda m: r"\s+", re.escape(p))
@@ -569,7 +580,7 @@ def oracle(case, ans):
                 diag = "escape-then-ws-composition"
         except re.error:
             pass
-    if api == "hc":
+    if diag == "unexplained" and api == "hc":
         rec = "c" in fl
         try:
             m = row_of(case["pats"][0], "", texts)
@@ -577,14 +588,6 @@ def oracle(case, ans):
                                  if any(m[c] and texts[c] != "" for c in (descendants(children, p) if rec else children[p]))])
             if alt == res:
                 diag = "has-child-with-empty-text"
-        except re.error:
-            pass
-    for tag, afl, apats in alts:
-        if diag != "unexplained":
-            break
-        try:
-            if expected(case, parents, children, texts, flags=afl, pats=apats) == res:
-                diag = tag
         except re.error:
             pass
     return [f"[{diag}] {name}({case['pats']!r}, flags={fl!r}) returned {res[:120]!r}, a brute-force scan of the tree gives {want[:120]!r}"]
